@@ -408,7 +408,11 @@ class FIXNewOrderSingle:
             self.leaves_qty = 0
 
         if new_status is not None:
-            self.status = new_status
+            self.status = FOrdStatus(new_status)
+            if self.orig_clord_id:
+                # the rejected request is over, the order stays live as it was
+                self.clord_id = self.orig_clord_id
+                self.orig_clord_id = None
             return True
         else:
             return False
